@@ -2,8 +2,9 @@
 //@config dev
 // C05 one-step contracts of IntegralStream and DerivativeStream over an ARBITRARY pre-state (value and
 // prev_output symbolic, no invariant assumed for the freshness / reset / purity clauses).
-// EXPECTED on the unchanged tree: `c05_integral_fresh_after_present` and `c05_derivative_fresh_after_present`
-// are refuted (pre-state value = Err(e), prev_output = None, input Some(d): get() is the stale Err(e)).
+// History: on the original tree (4eac47a) `c05_integral_fresh_after_present` and
+// `c05_derivative_fresh_after_present` were refuted (pre-state value = Err(e), prev_output = None, input Some(d):
+// get() returned the stale Err(e)); repaired in /repo by a0388f7.
 #![allow(unused_imports, dead_code)]
 use super::*;
 use crate::verif_c05_bits::*;
@@ -44,7 +45,7 @@ macro_rules! bodies {
                 let s = $stream::<Scripted<Quantity>, Er>::new(rf(&mut inp));
                 assert!(s.value.beq(&Ok(None)) && s.prev_output.is_none());
                 let u: Unit = kani::any();
-                assert!(unit_inv(&s, u));
+                assert!(unit_inv(&s, u) && err_inv(&s));
                 assert!(s.get().beq(&Ok(None)));
                 reach!();
             }
@@ -58,6 +59,19 @@ macro_rules! bodies {
                 kani::assume(a7(&s, &ev));
                 let _ = s.update();
                 assert!(unit_inv(&s, u));
+                reach!();
+            }
+            /// A cached error never coexists with a stored sample (holds since the a0388f7 repair).
+            pub fn err_inv(s: &St) -> bool { !(s.value.is_err() && s.prev_output.is_some()) }
+            pub fn err_inv_step() {
+                let ev = any_output::<Quantity>();
+                let mut inp = Scripted::new(ev);
+                let mut s = any_st(rf(&mut inp));
+                let u: Unit = kani::any();
+                if let Ok(Some(d)) = &ev { kani::assume(d.value.unit == u); }
+                kani::assume(err_inv(&s) && unit_inv(&s, u) && a7(&s, &ev));
+                let _ = s.update();
+                assert!(err_inv(&s));
                 reach!();
             }
             pub fn fresh_after_error() {
@@ -123,6 +137,7 @@ macro_rules! bodies {
                 assert!(r1.beq(&r2));
                 assert!(snap_eq(&snap(&s), &snap(&fresh)));
                 assert!(s.get().beq(&fresh.get()));
+                reach!();
             }
             pub fn get_pure() {
                 let mut inp = Scripted::<Quantity>::new(any_output());
@@ -144,39 +159,43 @@ bodies!(integral, IntegralStream, integral_unit);
 bodies!(derivative, DerivativeStream, derivative_unit);
 
 // ---------------------------------------------------------------------------------------------- Integral
-//@ob fn="IntegralStream::new" at=src/streams/math.rs:462 clause="new() is (Ok(None), no previous sample); get() of it is Ok(None); unit invariant holds"
+//@ob fn="IntegralStream::new" at=src/streams/math.rs:466 clause="new() is (Ok(None), no previous sample); get() of it is Ok(None); unit invariant holds"
 #[kani::proof]
 fn c05_integral_new() { integral::new_is_empty(); }
 
-//@ob fn="<IntegralStream<G,E> as Updatable>::update" at=src/streams/math.rs:478 clause="unit invariant (stored sample has the input's unit u, present value has unit s*u) is inductive for inputs of constant unit, so no unit assertion fires; no panic (A7 on the time difference)"
+//@ob fn="<IntegralStream<G,E> as Updatable>::update" at=src/streams/math.rs:482 clause="unit invariant (stored sample has the input's unit u, present value has unit s*u) is inductive for inputs of constant unit, so no unit assertion fires; no panic (A7 on the time difference)"
 #[kani::proof]
 fn c05_integral_unit_inv_step() { integral::unit_inv_step(); }
 
-//@ob fn="<IntegralStream<G,E> as Updatable>::update" at=src/streams/math.rs:482 clause="freshness, error event, arbitrary pre-state: update returns Err(e) and get() is Err(e), the same e"
+//@ob fn="<IntegralStream<G,E> as Updatable>::update" at=src/streams/math.rs:482 clause="structural invariant 'a cached error never coexists with a stored previous sample' holds of new() (c05_integral_new) and is inductive for every input event (A7, constant input unit)"
+#[kani::proof]
+fn c05_integral_err_inv_step() { integral::err_inv_step(); }
+
+//@ob fn="<IntegralStream<G,E> as Updatable>::update" at=src/streams/math.rs:486 clause="freshness, error event, arbitrary pre-state: update returns Err(e) and get() is Err(e), the same e"
 #[kani::proof]
 fn c05_integral_fresh_after_error() { integral::fresh_after_error(); }
 
-//@ob fn="<IntegralStream<G,E> as Updatable>::update" at=src/streams/math.rs:490 clause="freshness, absent event, arbitrary pre-state (cached error included): update returns Ok and get() is Ok(None)"
+//@ob fn="<IntegralStream<G,E> as Updatable>::update" at=src/streams/math.rs:494 clause="freshness, absent event, arbitrary pre-state (cached error included): update returns Ok and get() is Ok(None)"
 #[kani::proof]
 fn c05_integral_fresh_after_absent() { integral::fresh_after_absent(); }
 
-//@ob fn="<IntegralStream<G,E> as Updatable>::update" at=src/streams/math.rs:496 clause="freshness, present event, arbitrary pre-state (cached error included): update returns Ok and get() is NOT an error, because this update's input was not an error (A7, constant input unit)"
+//@ob fn="<IntegralStream<G,E> as Updatable>::update" at=src/streams/math.rs:500 clause="freshness, present event, arbitrary pre-state (cached error included): update returns Ok and get() is NOT an error, because this update's input was not an error (A7, constant input unit)"
 #[kani::proof]
 fn c05_integral_fresh_after_present() { integral::fresh_after_present(); }
 
-//@ob fn="<IntegralStream<G,E> as Updatable>::update" at=src/streams/math.rs:496 clause="structure of a present sample: the sample is stored bit for bit as the previous sample; with no previous sample an absent value stays absent, otherwise the value is present and stamped with the sample's time; input read once (A7, constant input unit)"
+//@ob fn="<IntegralStream<G,E> as Updatable>::update" at=src/streams/math.rs:500 clause="structure of a present sample: the sample is stored bit for bit as the previous sample; with no previous sample an absent value stays absent, otherwise the value is present and stamped with the sample's time; input read once (A7, constant input unit)"
 #[kani::proof]
 fn c05_integral_present_structure() { integral::present_structure(); }
 
-//@ob fn="<IntegralStream<G,E> as Updatable>::update" at=src/streams/math.rs:490 clause="reset on absent: step(s, None) == step(new(), None), every field bit-equal, arbitrary s"
+//@ob fn="<IntegralStream<G,E> as Updatable>::update" at=src/streams/math.rs:494 clause="reset on absent: step(s, None) == step(new(), None), every field bit-equal, arbitrary s"
 #[kani::proof]
-fn c05_integral_reset_absent() { integral::reset_check(Ok(None)); reach!(); }
+fn c05_integral_reset_absent() { integral::reset_check(Ok(None)); }
 
-//@ob fn="<IntegralStream<G,E> as Updatable>::update" at=src/streams/math.rs:482 clause="reset on error: step(s, Err e) == step(new(), Err e), every field bit-equal, arbitrary s, every e"
+//@ob fn="<IntegralStream<G,E> as Updatable>::update" at=src/streams/math.rs:486 clause="reset on error: step(s, Err e) == step(new(), Err e), every field bit-equal, arbitrary s, every e"
 #[kani::proof]
-fn c05_integral_reset_error() { integral::reset_check(Err(kani::any())); reach!(); }
+fn c05_integral_reset_error() { integral::reset_check(Err(kani::any())); }
 
-//@ob fn="<IntegralStream<G,E> as Getter>::get" at=src/streams/math.rs:473 clause="purity: get() returns the cached value, twice the same (bitwise), every field bit-unchanged, input not touched; arbitrary state"
+//@ob fn="<IntegralStream<G,E> as Getter>::get" at=src/streams/math.rs:477 clause="purity: get() returns the cached value, twice the same (bitwise), every field bit-unchanged, input not touched; arbitrary state"
 #[kani::proof]
 fn c05_integral_get_pure() { integral::get_pure(); }
 
@@ -188,6 +207,10 @@ fn c05_derivative_new() { derivative::new_is_empty(); }
 //@ob fn="<DerivativeStream<G,E> as Updatable>::update" at=src/streams/math.rs:422 clause="unit invariant (stored sample has the input's unit u, present value has unit u/s) is inductive for inputs of constant unit, so no unit assertion fires; no panic (A7 on the time difference)"
 #[kani::proof]
 fn c05_derivative_unit_inv_step() { derivative::unit_inv_step(); }
+
+//@ob fn="<DerivativeStream<G,E> as Updatable>::update" at=src/streams/math.rs:422 clause="structural invariant 'a cached error never coexists with a stored previous sample' holds of new() (c05_derivative_new) and is inductive for every input event (A7, constant input unit)"
+#[kani::proof]
+fn c05_derivative_err_inv_step() { derivative::err_inv_step(); }
 
 //@ob fn="<DerivativeStream<G,E> as Updatable>::update" at=src/streams/math.rs:426 clause="freshness, error event, arbitrary pre-state: update returns Err(e) and get() is Err(e), the same e"
 #[kani::proof]
@@ -207,11 +230,11 @@ fn c05_derivative_present_structure() { derivative::present_structure(); }
 
 //@ob fn="<DerivativeStream<G,E> as Updatable>::update" at=src/streams/math.rs:434 clause="reset on absent: step(s, None) == step(new(), None), every field bit-equal, arbitrary s"
 #[kani::proof]
-fn c05_derivative_reset_absent() { derivative::reset_check(Ok(None)); reach!(); }
+fn c05_derivative_reset_absent() { derivative::reset_check(Ok(None)); }
 
 //@ob fn="<DerivativeStream<G,E> as Updatable>::update" at=src/streams/math.rs:426 clause="reset on error: step(s, Err e) == step(new(), Err e), every field bit-equal, arbitrary s, every e"
 #[kani::proof]
-fn c05_derivative_reset_error() { derivative::reset_check(Err(kani::any())); reach!(); }
+fn c05_derivative_reset_error() { derivative::reset_check(Err(kani::any())); }
 
 //@ob fn="<DerivativeStream<G,E> as Getter>::get" at=src/streams/math.rs:417 clause="purity: get() returns the cached value, twice the same (bitwise), every field bit-unchanged, input not touched; arbitrary state"
 #[kani::proof]
